@@ -1790,7 +1790,8 @@ def lt(left: Any, right: Any) -> bool:
         if not eq(left[kl], right[kr]):
           return lt(left[kl], right[kr])
       else:
-        return kl < kr
+        # Keys could be of different types (e.g. int and str).
+        return lt(kl, kr)
     # `left` and `right` are equal so far, so `left is less than `right`
     # only when left has fewer keys.
     return len(lkeys) < len(rkeys)
